@@ -160,7 +160,10 @@ pub const DIRECTED: &[(&str, usize, &str)] = &[
     ("global-map-first-used-under-new", 2, r#"(seq (call "@P0" ("svc" "arr1") ["d"] arr) (seq (fold arr i (seq (new %m (seq (ap ("k" 1) %m) (next i))) (ap (i i) %m))) (seq (canon "@P0" %m #%c) (call "@P1" ("svc" "f2") [#%c]))))"#),
     // one stream folded twice in a row; the second fold appends to the stream while it runs (nothing is appended
     // between the end of the first fold and the start of the second)
-    ("fold-after-fold-recursive", 3, r#"(seq (seq (call "@P0" ("svc" "f1") [] $s) (fold $s i (seq (call "@P1" ("svc" "f2") [i]) (next i)))) (seq (fold $s j (seq (seq (call "@P1" ("svc" "f3") [j]) (xor (match j.$.k "a" (ap "more" $s)) (null))) (next j))) (seq (canon "@P1" $s #c) (call "@P2" ("svc" "f4") [#c]))))"#),
+    ("fold-after-fold-recursive", 3, r#"(seq (seq (call "@P0" ("svc" "f1") [] $s) (fold $s i (seq (call "@P1" ("svc" "f2") [i]) (next i)) (null))) (seq (fold $s j (seq (seq (call "@P1" ("svc" "f3") [j]) (xor (match j.$.k "a" (ap "more" $s)) (null))) (next j)) (null)) (seq (canon "@P1" $s #c) (call "@P2" ("svc" "f4") [#c]))))"#),
+    // a stream fold whose last instruction is a call taking the iterator: it runs once per iteration chain, and
+    // peers that see the values in different generations build different chains
+    ("stream-fold-last-instruction-call", 3, r#"(seq (par (seq (call "@P1" ("svc" "f2") [] y) (ap "a" $s)) (call "@P0" ("svc" "f3") [] z)) (seq (ap "b" $s) (seq (fold $s i (next i) (call "@P2" ("svc" "flast") [i] r)) (call "@P1" ("svc" "fin") []))))"#),
 ];
 
 pub const DIRECTED_BASE: u64 = 1_000_000_000;
